@@ -11,7 +11,7 @@ LEVEL_TEXT = ("Coq theorems over the transcribed net/textproto dot decoder: for 
 LEVEL_NOTE = ("Coq kernel; extraction; the dotReader state machine is transcribed from Go's source (validated by the correspondence run, "
               "not verified); the trace-header prefix is tied to the source by the translator: the three Sprintf formats, their argument expressions and the io.MultiReader order are "
               "regenerated on every run (Gen/SmtpTrace.v) and trace_headers_are_the_source_formats / stored_pieces_in_source_order prove that the model's stored_source renders exactly "
-              "them; the agreement of the read interfaces on a message's content is now a theorem over ONE abstract store (read_interfaces_agree_on_source, Proofs/InterfacesAgree.v, composing C07's StoreSpec, C14's REST / web-UI handler model and C13's POP3 model over that store: GetMessage, REST /source and web-UI /source answer the source of exactly that message, the POP3 view holds the same bytes at the same position, RETR sends pop3_send of them and announces their length; interfaces_agree_instance is a kernel-evaluated instance), and composed once more with the SMTP session and the dot codec (Proofs/EndToEnd.v, smtp_bytes_to_read_interfaces: for any bytes on one SMTP connection, every entry a mailbox holds afterwards is a delivery of that dialogue to that mailbox whose body is the dot-decoding of a block standing in those bytes - delivered_bodies_are_decoded_blocks - and all read interfaces serve its source; e2e_instance evaluates it on a dialogue; any_sessions_to_read_interfaces is the same for any number of connections whose deliveries reach the store in any order); what remains covered by the differential run only is the transport glue (the store copy of the bytes, net/http writing the source, the POP3 line writer's connection handling) and size = length on the real stores "
+              "them; the agreement of the read interfaces on a message's content is now a theorem over ONE abstract store (read_interfaces_agree_on_source, Proofs/InterfacesAgree.v, composing C07's StoreSpec, C14's REST / web-UI handler model and C13's POP3 model over that store: GetMessage, REST /source and web-UI /source answer the source of exactly that message, the POP3 view holds the same bytes at the same position, RETR sends pop3_send of them and announces their length; interfaces_agree_instance is a kernel-evaluated instance), and composed once more with the SMTP session and the dot codec (Proofs/EndToEnd.v, smtp_bytes_to_read_interfaces: for any bytes on one SMTP connection, every entry a mailbox holds afterwards is a delivery of that dialogue to that mailbox whose body is the dot-decoding of a block standing in those bytes - delivered_bodies_are_decoded_blocks - and all read interfaces serve its source; e2e_instance evaluates it on a dialogue; any_sessions_to_read_interfaces is the same for any number of connections whose deliveries reach the store in any order; smtp_bytes_to_read_interfaces_with_sizes adds the size clause - on the store that records the length of the stored source the size every listing shows is the length of the bytes every interface serves, Proofs/EndToEndSize.v); what remains covered by the differential run only is the transport glue (the store copy of the bytes, net/http writing the source, the POP3 line writer's connection handling) and size = length on the REAL stores (the models' end-to-end theorem has the clause now) "
               "(the POP3 line writer has theorems: pop3_roundtrip*); lf_norm is not idempotent (a line ending CR CR LF keeps one CR in the store and loses it at POP3's CR trim); the Received "
               "timestamp is masked; POP3 output is compared after CRLF->LF normalisation, which the property allows")
 DESIGN_REF = "DESIGN.md §4 C02"
